@@ -12,7 +12,7 @@ if mode == "replay":
 else:
     seed, profile = int(sys.argv[2]), sys.argv[3]
     nops = int(sys.argv[4]) if len(sys.argv) > 4 else 25
-    worker = {"eval": pl.make_eval_trace, "inh": pl.make_inh_trace, "dyn": pl.make_dyn_trace}[mode]
+    worker = {"eval": pl.make_eval_trace, "inh": pl.make_inh_trace, "dyn": pl.make_dyn_trace, "c04": pl.make_c04_trace}[mode]
     tr = worker((seed, profile, nops, {}))
 v, r = tlc.validate_traces([tr])
 print(v)
